@@ -1031,8 +1031,19 @@ func (s *sim) checkPipeSet(cls map[string]bool, eq bool, crashKind string) {
 		// of the start line has checked that this is the predicted set
 		for n, g := range have {
 			if _, ok := s.pipes[n]; !ok {
+				if s.deleted[n] {
+					// SPEC: an acknowledged DELETE PIPE survives a crash (DeletePipe saves the registry before it returns, 9273e4f;
+					// `deleted_pipe_stays_deleted_after_crash`). `deleted` holds acknowledged deletions (and, for a cut inside
+					// DELETE, the case where the registry without the pipe had reached the disk); a later CREATE clears it.
+					// F33's class: position saves of a pipe named s overwrite the registry, an older list can come back
+					finding := ""
+					if eq && (cls["collision"] || s.everS()) {
+						finding = "F33"
+					}
+					s.specFail("deleted-pipe-resurrected", "a pipe whose DELETE was acknowledged exists again after a start on a crash image ("+crashKind+")", n, "absent", "", eq, finding)
+				}
 				s.pipes[n] = g
-				res.Dist(s.sect, "crash-resurrected-deleted-pipe")
+				res.Dist(s.sect, "crash-start-has-a-pipe-the-harness-does-not-hold")
 			}
 		}
 	}
@@ -2089,6 +2100,12 @@ func exhaustiveCuts() []scase {
 			cs = append(cs, scase{ChunkSize: 4000, Ops: base, Crash: &crashSpec{Kind: "pipesave-cut", K: k, Len: l, Pipe: "t"}})
 		}
 	}
+	// an acknowledged DELETE PIPE, then a crash image (and a second crash / a clean restart of the crash-started server): the
+	// pipe must not come back
+	delOps := append(append([]hop{}, base...), hop{Kind: "mkpipe", Name: "pa", Sel: "g=b"}, hop{Kind: "write", Part: 0, N: 3}, hop{Kind: "rmpipe", Name: "t"})
+	cs = append(cs,
+		scase{ChunkSize: 4000, Ops: delOps, Crash: &crashSpec{Kind: "image", Then: []string{"crash"}}},
+		scase{ChunkSize: 4000, Ops: append(append([]hop{}, delOps...), hop{Kind: "rmpipe", Name: "pa"}), Crash: &crashSpec{Kind: "image", Then: []string{"restart"}}})
 	// every cut of the metadata updates of CREATE PIPE (3 steps) and DELETE PIPE (4 steps)
 	for k := 0; k <= 4; k++ {
 		for _, l := range lenClasses {
